@@ -137,8 +137,10 @@ class Tracker:
         self.cells[k] = list(vals)
         return k
 
-    def add(self, cells, isbool=False):
-        self.seqs.append(dict(c=list(cells), pend=None, alive=True, isbool=isbool, born=self.t, grew=-1))
+    def add(self, cells, isbool=False, intres=False):
+        # intres: integer dtype whatever the configuration (arithmetic on a boolean result)
+        self.seqs.append(dict(c=list(cells), pend=None, alive=True, isbool=isbool, born=self.t, grew=-1,
+                              intres=intres))
         return len(self.seqs) - 1
 
     def live(self):
@@ -198,10 +200,10 @@ class Tracker:
             ps = positions(len(S[i]['c']), dec_index(f[2])) if o == 'get' else list(range(len(S[i]['c'])))
             if isinstance(ps, str):
                 return ps
-            self.add([S[i]['c'][p] for p in ps], S[i]['isbool'])
+            self.add([S[i]['c'][p] for p in ps], S[i]['isbool'], S[i]['intres'])
             return 'ok'
         if o == 'copy':
-            self.add([self.cell(self.cells[c]) for c in S[i]['c']], S[i]['isbool'])
+            self.add([self.cell(self.cells[c]) for c in S[i]['c']], S[i]['isbool'], S[i]['intres'])
             return 'ok'
         if o in ('seti', 'setr'):
             k = int(f[2])
@@ -254,7 +256,7 @@ class Tracker:
                     self.cells[c] = [apply_fn(fn, v) for v in self.cells[c]]
             else:
                 self.add([self.cell([apply_fn(fn, v) for v in self.cells[c]]) for c in S[i]['c']],
-                         fn.split(',')[0] in ('lt', 'eq'))
+                         fn.split(',')[0] in ('lt', 'eq'), S[i]['isbool'] or S[i]['intres'])
             return 'ok'
         if o == 'opq':
             j = int(f[3])
@@ -276,13 +278,13 @@ class Tracker:
                     if e is None:
                         return 'err:Value'
                     out.append(e)
-                self.add([self.cell(e) for e in out], f[2] in ('lt', 'eq'))
+                self.add([self.cell(e) for e in out], f[2] in ('lt', 'eq'), S[i]['intres'] and S[j]['intres'])
             return 'ok'
         if o == 'cat':
             js = [int(p.split(',')[0]) for p in f[1].split(';')] if f[1] else []
             if not js:
                 return 'err:Index'
-            self.add([self.cell(self.cells[c]) for j in js for c in S[j]['c']], S[js[0]]['isbool'])
+            self.add([self.cell(self.cells[c]) for j in js for c in S[j]['c']], S[js[0]]['isbool'], S[js[0]]['intres'])
             return 'ok'
         if o == 'drop':
             S[i]['alive'] = False
@@ -596,7 +598,8 @@ def random_history(g, rng, depth, bytes_choices):
                         push(f'opq:{i}:add:{j}:{rng.choice([0, 1])}:0')      # refused by _check_shape
                 elif same + ones:
                     j = rng.choice(same + ones)
-                    inplace = rng.random() < 0.6
+                    # int <op>= float is refused by NumPy (same_kind casting): stay inside the statement
+                    inplace = rng.random() < 0.6 and (g.kind == 'i' or not s['intres'] or tr.seqs[j]['intres'])
                     # magnitudes: a sequence operand can double every value (no products here; float32
                     # payloads must stay exact), so value-growing operators have a small budget
                     grow = ['add', 'sub'] + (['or', 'xor'] if g.kind == 'i' else [])
@@ -813,7 +816,11 @@ def _check_history(toks, steps, lays, fails, known):
 
         # ---- compare
         if not skip:
-            if exp_res != res:
+            if res == 'ok:rebound':
+                fails.append(('inplace_rebinds_object', k,
+                              f'{tok}: the in-place operator returned another object than the one it was applied to '
+                              '(the name is silently rebound to a detached sequence)'))
+            elif exp_res != res:
                 fails.append(('result', k, f'{tok}: expected {exp_res}, got {res}'))
             if exp_res != 'ok' and exp_res == res:
                 exp = {i: v for i, v in prev.items()}          # a refusal changes nothing
